@@ -252,4 +252,37 @@ theorem specClause_congr {as bs : List Obs} (h : sameViews as bs = true) : specC
       simp only
       rw [h1.1.1.1.1.2, hproj, specList_congr _ _ h]
 
+/-! ### the program-aware clauses read the same view -/
+
+theorem sameView_right (m : Obs) {a b : Obs} (h : sameView a b = true) : sameView m a = sameView m b := by
+  simp only [sameView, Bool.and_eq_true, beq_iff_eq] at h
+  obtain ⟨⟨⟨⟨⟨⟨hconv, hbef⟩, hout⟩, haft⟩, hcan⟩, hhead⟩, hc⟩ := h
+  unfold sameView
+  rw [hconv, hbef, hout, haft, hcan, hhead, hc]
+
+theorem specObsPL_congr (L : List Nat) (m : Obs) {a b : Obs} (h : sameView a b = true) :
+    specObsPL L m a = specObsPL L m b := by
+  have hs := sameView_right m h
+  simp only [sameView, Bool.and_eq_true, beq_iff_eq] at h
+  obtain ⟨⟨⟨⟨⟨⟨hconv, _⟩, _⟩, _⟩, _⟩, _⟩, hc⟩ := h
+  unfold specObsPL
+  rw [hconv, hc, hs]
+
+theorem specListP_congr (L : List Nat) : ∀ (ms : List Obs) {as bs : List Obs}, sameViews as bs = true →
+    specListP L ms as = specListP L ms bs
+  | [], [], [], _ => rfl
+  | [], _ :: _, _ :: _, _ => by simp [specListP]
+  | _ :: _, [], [], _ => by simp [specListP]
+  | m :: ms, a :: as, b :: bs, h => by
+    simp only [sameViews, Bool.and_eq_true] at h
+    simp only [specListP, specObsPL_congr L m h.1, specListP_congr L ms h.2]
+  | _, [], _ :: _, h => by simp [sameViews] at h
+  | _, _ :: _, [], h => by simp [sameViews] at h
+
+/-- the whole observer, program-aware clauses included, reads of the observations only what the correspondence check compares -/
+theorem specClauseP_congr (c : Call) (p : Prog) {as bs : List Obs} (h : sameViews as bs = true) :
+    specClauseP c p as = specClauseP c p bs := by
+  unfold specClauseP specClausePWith
+  rw [specClause_congr h, specListP_congr _ _ h]
+
 end AsynqModel.Asyncio
